@@ -347,7 +347,7 @@ func RunCons(e *bubble.Env, p ConsPlan, extra ...kgo.Opt) *ConsObs {
 	}
 	if os.Getenv("VERIF_DEBUG") != "" {
 		e.Net.KeepFrames()
-		e.Net.OnReq = func(ri *bubble.ReqInfo) {
+		e.Net.SetOnReq(func(ri *bubble.ReqInfo) {
 			if ri.Key != 1 || len(ri.Frame) < 14 {
 				return
 			}
@@ -376,8 +376,8 @@ func RunCons(e *bubble.Env, p ConsPlan, extra ...kgo.Opt) *ConsObs {
 				forgot = append(forgot, fmt.Sprintf("%x/%v", t.TopicID[:1], t.Partitions))
 			}
 			e.Log.Add("FETCH-req", int64(req.SessionID), fmt.Sprintf("conn=%d epoch=%d parts=%v forgot=%v", ri.Conn, req.SessionEpoch, parts, forgot), nil, 0, 0)
-		}
-		e.Net.OnResp = func(ri *bubble.ReqInfo, body []byte) {
+		})
+		e.Net.SetOnResp(func(ri *bubble.ReqInfo, body []byte) {
 			if ri.Key != 1 {
 				return
 			}
@@ -408,7 +408,7 @@ func RunCons(e *bubble.Env, p ConsPlan, extra ...kgo.Opt) *ConsObs {
 					e.Log.Add("FETCH-resp", int64(p.Partition), fmt.Sprintf("conn=%d %x err=%d hwm=%d lso=%d aborted=%v batches=[%d..%d]", ri.Conn, t.TopicID[:2], p.ErrorCode, p.HighWatermark, p.LastStableOffset, p.AbortedTransactions, first, last), nil, 0, 0)
 				}
 			}
-		}
+		})
 	}
 	plain := e.NewClient(kgo.ClientID("verif-plain-producer"), kgo.RecordPartitioner(kgo.ManualPartitioner()), kgo.ProducerLinger(0))
 	var nextID, nextTxn int64
